@@ -212,12 +212,13 @@ def listener_loops(program):
                     itn = e.sym.node
                     if isinstance(itn, ast.Name):
                         # a local list/set built from the table
+                        nm_ = itn.id
                         for p in ex.state.trace:
                             if p is e:
                                 break
                             if p.kind == 'local' and isinstance(
                                     p.target, ast.Name) and p.target.id \
-                                    == itn.id:
+                                    == nm_:
                                 itn = p.sym.node
                     if EVENTS in norm(itn):
                         seen.add(id(e.node))
